@@ -74,6 +74,9 @@ def rename_case(rng):
                         s.add((c["line"], c["col"]))
                 toks[b["path"]] = sorted(s)
             return toks
+        if rng.random() < 0.15:
+            # a Windows checkout: every line ends in CR LF (lines and columns are the same; the line ends are bytes like any other)
+            files = {pth: txt.replace("\n", "\r\n") for pth, txt in files.items()}
         case = {"op": "rename", "files": files, "old": "%s.%s.%s" % (u["pkg"], u["name"], old), "new": "%s.%s.%s" % (u["pkg"], u["name"], new),
                 "oldName": old, "newName": new, "tokens": tokens_of(old), "cls": [u["pkg"], u["name"]],
                 # one project in six through the real `coca analysis -p dir` + `coca refactor -R conf -d deps.json` (fresh processes)
